@@ -124,6 +124,12 @@ theorem Shape.mem_muxList (σ : Shape) {p : Nat} {m : Mux} (h : m ∈ σ.muxList
   · exact ⟨j, job, by assumption, this, hm⟩
   · cases this
 
+/-- The tracking mode of a connected thread channel is one `track_th_input_chan` accepts. -/
+def Shape.JobOk (σ : Shape) : Job → Prop
+  | .th _ k i => ∀ m, σ.specs[k]? = some m →
+      m.thTrack.getD i 0 = trackAny ∨ m.thTrack.getD i 0 = trackRun ∨ m.thTrack.getD i 0 = trackAct
+  | .cpu _ _ _ => True
+
 structure Shape.Built (σ : Shape) (p : Nat) (b : Bay) : Prop where
   topo : b.Topo σ.L
   len : b.chans.length = σ.L + p
@@ -133,10 +139,11 @@ structure Shape.Built (σ : Shape) (p : Nat) (b : Bay) : Prop where
   outOk : ∀ (mi : Nat) (m : Mux), b.muxes[mi]? = some m →
     (b.chan m.out).isStack = false ∧ (b.chan m.out).dirtyWrite = true
   dirty : b.dirty = []
+  modes : ∀ (j : Nat) (job : Job), j < p → σ.jobs[j]? = some job → σ.JobOk job
 
 theorem Shape.built_zero (σ : Shape) : σ.Built 0 σ.bay0 := by
   have hmx : σ.bay0.muxes = [] := by simp [Shape.bay0, Bay.registerAll_eq]
-  refine ⟨σ.bay0_topo, ?_, fun _ _ => rfl, ?_, ?_, ?_, ?_⟩
+  refine ⟨σ.bay0_topo, ?_, fun _ _ => rfl, ?_, ?_, ?_, ?_, ?_⟩
   · rw [σ.bay0_chans]; simp [Shape.L]
   · rw [hmx]; simp [Shape.muxList]
   · intro mi j h
@@ -144,6 +151,7 @@ theorem Shape.built_zero (σ : Shape) : σ.Built 0 σ.bay0 := by
     simp [Bay.selOf, this] at h
   · intro mi m h; rw [hmx] at h; simp at h
   · simp [Shape.bay0, Bay.registerAll_eq]
+  · intro j job hj; omega
 
 theorem Bay.chan_congr {b b' : Bay} {c : Nat} (h : b'.chans[c]? = b.chans[c]?) : b'.chan c = b.chan c := by
   simp [Bay.chan, List.getD_eq_getElem?_getD, h]
@@ -164,6 +172,11 @@ theorem Shape.Built.step {σ : Shape} {p : Nat} {b b' : Bay} {job : Job} {o : Na
     σ.Built (p + 1) b' := by
   have hmem : job ∈ σ.jobs := List.mem_of_getElem? hj
   have hml := σ.muxList_succ hj
+  have hmodes : σ.JobOk job → ∀ (j' : Nat) (job' : Job), j' < p + 1 → σ.jobs[j']? = some job' → σ.JobOk job' := by
+    intro hok j' job' hj' hjob'
+    by_cases e : j' = p
+    · subst e; rw [hj] at hjob'; cases hjob'; exact hok
+    · exact hb.modes j' job' (by omega) hjob'
   cases job with
   | th g k i =>
     obtain ⟨hg, m, hk, hi⟩ := (σ.mem_jobs_th g k i).mp hmem
@@ -174,7 +187,8 @@ theorem Shape.Built.step {σ : Shape} {p : Nat} {b b' : Bay} {job : Job} {o : Na
     · -- mode ANY: only the track's own channel is registered
       have hmo : σ.muxOf (.th g k i) (σ.L + p) = none := by simp only [Shape.muxOf, hk, ha, if_true]
       rw [hmo] at hml
-      refine ⟨hb.topo.register, ?_, ?_, ?_, hb.selZero, ?_, hb.dirty⟩
+      refine ⟨hb.topo.register, ?_, ?_, ?_, hb.selZero, ?_, hb.dirty,
+        hmodes (fun m' hk' => by rw [hk] at hk'; cases hk'; exact Or.inl ha)⟩
       · simp [Bay.register, hb.len]; omega
       · intro c hc
         rw [← hb.src c hc]
@@ -201,7 +215,8 @@ theorem Shape.Built.step {σ : Shape} {p : Nat} {b b' : Bay} {job : Job} {o : Na
         obtain ⟨m0, _, _, _, _, rfl⟩ := Bay.muxSetInput_ok h2'
         show b1.chans.length = _
         rw [hl1]; simp [Bay.register, hb.len]; omega
-      refine ⟨t', hlen', ?_, ?_, ?_, ?_, hdt.trans hb.dirty⟩
+      refine ⟨t', hlen', ?_, ?_, ?_, ?_, hdt.trans hb.dirty,
+        hmodes (fun m' hk' => by rw [hk] at hk'; cases hk'; exact Or.inr hmode)⟩
       · intro c hc; rw [← hb.src c hc]; exact hch c (by rw [hb.len]; omega)
       · rw [hmx', hml, hb.muxes, hop]
       · intro mi j hsj
@@ -241,7 +256,7 @@ theorem Shape.Built.step {σ : Shape} {p : Nat} {b b' : Bay} {job : Job} {o : Na
           · cases h3
           · cases h3; rfl
         rw [hc3, hc2, hl1]; simp [Bay.register, hb.len]; omega
-      refine ⟨⟨wf', hlay, hno, ?_, hlen⟩, hlen', ?_, ?_, ?_, ?_, hdt.trans hb.dirty⟩
+      refine ⟨⟨wf', hlay, hno, ?_, hlen⟩, hlen', ?_, ?_, ?_, ?_, hdt.trans hb.dirty, hmodes trivial⟩
       · intro x
         by_cases e : x = o
         · rw [e]; exact hnullo
@@ -301,7 +316,7 @@ theorem Shape.Built.mem_mux {σ : Shape} {p : Nat} {b : Bay} (hb : σ.Built p b)
 /-- Shape of every mux of the connected bay. -/
 inductive Shape.IsTrack (σ : Shape) : Mux → Prop
   | th (g k i : Nat) (m : ModelSpec) (out : Nat) : g < σ.nT → σ.specs[k]? = some m → i < m.nch →
-      m.thTrack.getD i 0 ≠ trackAny →
+      (m.thTrack.getD i 0 = trackRun ∨ m.thTrack.getD i 0 = trackAct) →
       σ.IsTrack { sel := σ.idx (.st g), out := out,
                   kind := if m.thTrack.getD i 0 = trackRun then .thRunning else .thActive,
                   inputs := [some (σ.idx (.raw g k i))] }
@@ -312,8 +327,9 @@ inductive Shape.IsTrack (σ : Shape) : Mux → Prop
 theorem Shape.Built.isTrack {σ : Shape} {p : Nat} {b : Bay} (hb : σ.Built p b) {mi : Nat} {m : Mux}
     (hm : b.muxes[mi]? = some m) : σ.IsTrack m := by
   have hmem : m ∈ σ.muxList p := hb.muxes ▸ List.mem_of_getElem? hm
-  obtain ⟨j, job, _, hj, hmo⟩ := σ.mem_muxList hmem
+  obtain ⟨j, job, hjp, hj, hmo⟩ := σ.mem_muxList hmem
   have hjm : job ∈ σ.jobs := List.mem_of_getElem? hj
+  have hok := hb.modes j job hjp hj
   cases job with
   | th g k i =>
     obtain ⟨hg, ms, hk, hi⟩ := (σ.mem_jobs_th g k i).mp hjm
@@ -322,7 +338,10 @@ theorem Shape.Built.isTrack {σ : Shape} {p : Nat} {b : Bay} (hb : σ.Built p b)
     · cases hmo
     · rename_i hna
       cases hmo
-      exact .th g k i ms _ hg hk hi hna
+      refine .th g k i ms _ hg hk hi ?_
+      rcases hok ms hk with h | h
+      · exact absurd h hna
+      · exact h
   | cpu c k i =>
     obtain ⟨hc, ms, hk, hi⟩ := (σ.mem_jobs_cpu c k i).mp hjm
     simp only [Shape.muxOf, hk] at hmo
